@@ -111,7 +111,7 @@ theorem endBlock_p {s s' : State} {ups : List (Addr × Int)} (h : Inv s) (he : e
 
 theorem bankOnly_fields {s s0 : State} (hb : BankOnly s s0) :
     s0.vals = s.vals ∧ s0.p = s.p ∧ s0.keys = s.keys ∧ s0.time = s.time := by
-  obtain ⟨b, sup, rfl⟩ := hb
+  obtain ⟨b, sup, b2, rfl⟩ := hb
   exact ⟨rfl, rfl, rfl, rfl⟩
 
 theorem keyAddr_congr {s s0 : State} (h : s0.keys = s.keys) (k : Nat) : keyAddr s0 k = keyAddr s k := by
